@@ -71,6 +71,14 @@ def gen_cases(ctx):
             c["params"]["statistic"], c["params"]["detect_batch"] = "tstat", db
             c.update(kind="drift", key="significance", loose=ctx.rng.choice([0.2, 0.05]), strict=0.0)
             cases.append(c)
+    # NN-DVI with few permutations and small alphas close to each other (a threshold fitted from a different number of
+    # shuffles for the two settings would not be ordered)
+    for _ in range(ctx.scale(10, 60)):
+        k += 1
+        c = gen_case(ctx, "NNDVI", k)
+        c["params"]["sampling_times"] = ctx.rng.choice([20, 50])
+        c.update(kind="drift", key="alpha", loose=ctx.rng.choice([0.05, 0.03, 0.02]), strict=ctx.rng.choice([0.015, 0.01, 0.008]))
+        cases.append(c)
     for name, key, vals in WARN_KNOBS:
         for _ in range(ctx.scale(5, 40) if name in SLOW else ctx.scale(10, 100)):
             k += 1
@@ -127,10 +135,32 @@ def run_impl(case):
     spec = SPECS[case["det"]]
     out = {}
     for w in ("loose", "strict"):
-        rows = spec.run(variant(case, w))
+        fits = []
+        if case["det"] == "NNDVI":
+            # the normal fit behind each threshold, observed at the public scipy call (one norm.ppf per update): under the
+            # same seed schedule both settings must fit the same (mu, sigma) - only the quantile level may differ
+            import scipy.stats
+            nrm, orig = scipy.stats.norm, scipy.stats.norm.ppf
+            def spy(q, *a, **k):
+                try:
+                    fits.append([float(x) for x in a[:2]] + [float(k[n]) for n in ("loc", "scale") if n in k])
+                except Exception:
+                    fits.append(None)
+                return orig(q, *a, **k)
+            nrm.ppf = spy
+        try:
+            rows = spec.run(variant(case, w))
+        finally:
+            if case["det"] == "NNDVI":
+                try:
+                    del nrm.ppf
+                except AttributeError:
+                    nrm.ppf = orig
         if spec.kind == "batch":
             rows = rows[1:]
         out[w] = [r["ds"] for r in rows]
+        if case["det"] == "NNDVI":
+            out[w + "_fit"] = fits
     return out
 
 
@@ -152,6 +182,12 @@ def direct_check(case, obs):
         if fs is not None and (fl is None or fs < fl):
             return [f"{desc}: the stricter setting reports its first drift at update {fs}, the looser one at {fl}"]
         upto = len(lo) if fl is None else fl
+        fa, fb = obs.get("loose_fit"), obs.get("strict_fit")
+        if fa is not None and fb is not None and len(fa) == len(lo) and len(fb) == len(st):
+            for i in range(min(upto + 1, len(lo))):
+                if fa[i] is not None and fb[i] is not None and fa[i] != fb[i]:
+                    return [f"{desc}: under the same seed schedule the two settings fitted different statistics at update {i} "
+                            f"(mu, sigma = {fa[i]} vs {fb[i]}) although only the quantile level should differ"]
         if lo[:upto] != st[:upto]:
             i = next(i for i in range(upto) if lo[i] != st[i])
             return [f"{desc}: traces differ at update {i} ({lo[i]!r} vs {st[i]!r}) before the looser run's first drift ({fl})"]
